@@ -1,6 +1,7 @@
 (* Properties/C17.v — Ticks are few enough, nice, ascending, inside the domain; Nice only expands.
    ONLY statements; each is closed by [exact] of a lemma from Proofs/Ticks*.v. *)
-From MM Require Import Base.Num Model.Ticks Proofs.Ticks.
+From Coq Require Import Sorted.
+From MM Require Import Base.Num Model.Ticks Proofs.Ticks Proofs.TicksLinear.
 Local Open Scope Z_scope.
 
 (* ================= FindLevel (ticks.go:56-101) ================= *)
@@ -44,3 +45,95 @@ Example C17_find_level_example :
   find_level (mkOpts 0 0 0) cnt 1 = FL_fail /\
   find_level (mkOpts 3 2 1) cnt 1 = FL_fail.
 Proof. vm_compute. repeat split; reflexivity. Qed.
+
+(* ================= Linear ticks (linear.go:81-150, vec.Linspace) ================= *)
+Section Linear.
+Local Open Scope Q_scope.
+
+(* level -> spacing: each level's spacing is an integer multiple (x1, x2, x5 or xBase) of the
+   previous level's; it is a power of the base, or 5 times a power of ten when Base = 0 *)
+Theorem C17_linear_spacing : forall base eb l, lin_ebase base = Some eb ->
+  (exists m : Z, (1 <= m)%Z /\ lin_spacing base eb (l + 1) == inject_Z m * lin_spacing base eb l) /\
+  (lin_spacing base eb l == qpow eb (l / 2) \/ (base = 0%Z /\ lin_spacing base eb l == 5 * qpow 10 (l / 2))).
+Proof. intros base eb l H. split; [exact (spacing_divides_next base eb l H) | exact (lin_spacing_form base eb l H)]. Qed.
+Print Assumptions C17_linear_spacing.
+
+(* TicksAtLevel(l) is exactly the set of integer multiples of the level's spacing inside the
+   domain widened by the slack the code grants itself (1e-10 of the width), in ascending
+   order, and CountTicks(l) is its length — at EVERY level *)
+Theorem C17_linear_ticks_at_level : forall base eb mn mx l, lin_ebase base = Some eb -> mn <= mx ->
+  (forall v, In v (lin_ticks_at base eb mn mx false l) <->
+             exists k : Z, v = inject_Z k * lin_spacing base eb l /\ in_range mn mx v) /\
+  StronglySorted Qlt (lin_ticks_at base eb mn mx false l) /\
+  lin_count base eb mn mx false l = Z.of_nat (length (lin_ticks_at base eb mn mx false l)).
+Proof. intros base eb mn mx l He Ho. split; [|split].
+  - intros v. exact (lin_ticks_at_spec base eb mn mx He Ho l v).
+  - exact (lin_ticks_ascending base eb mn mx He l).
+  - exact (lin_count_is_length base eb mn mx He Ho l). Qed.
+Print Assumptions C17_linear_ticks_at_level.
+
+(* ticks are nested (every tick of level l+1 is a tick of level l) and therefore the count is
+   non-increasing in the level, on every window *)
+Theorem C17_linear_nested_and_monotone : forall base eb mn mx, lin_ebase base = Some eb -> mn <= mx ->
+  (forall l v, In v (lin_ticks_at base eb mn mx false (l + 1)) ->
+               exists w, In w (lin_ticks_at base eb mn mx false l) /\ w == v) /\
+  (forall lo hi, nonincreasing (lin_count base eb mn mx false) lo hi).
+Proof. intros base eb mn mx He Ho. split.
+  - intros l v. exact (lin_ticks_nested base eb mn mx He Ho l v).
+  - intros lo hi. exact (lin_count_nonincreasing base eb mn mx lo hi He Ho). Qed.
+Print Assumptions C17_linear_nested_and_monotone.
+
+(* Ticks(o) for Min < Max: major = TicksAtLevel(l), minor = TicksAtLevel(l-1) where l is the
+   LOWEST level of the window with at most Max ticks (finest level that fits), so there are at
+   most Max major ticks — from whatever guess the search starts *)
+Theorem C17_linear_ticks : forall base mn mx o guess major minor lo hi,
+  mn < mx -> level_bounds o = Some (lo, hi) ->
+  lin_ticks base mn mx o guess = TR_ticks major minor ->
+  exists eb l, lin_ebase base = Some eb /\ (lo <= l <= hi)%Z /\
+    major = lin_ticks_at base eb mn mx false l /\ minor = lin_ticks_at base eb mn mx false (l - 1) /\
+    (Z.of_nat (length major) <= o_max o)%Z /\
+    forall l', (lo <= l' < l)%Z -> (o_max o < Z.of_nat (length (lin_ticks_at base eb mn mx false l')))%Z.
+Proof. exact lin_ticks_correct. Qed.
+Print Assumptions C17_linear_ticks.
+
+(* ... and no ticks are returned exactly when no level of the window fits *)
+Theorem C17_linear_ticks_none_iff : forall base eb mn mx o guess,
+  mn < mx -> lin_ebase base = Some eb -> (1 <= o_max o)%Z ->
+  (lin_ticks base mn mx o guess = TR_none <->
+   level_bounds o = None \/
+   exists lo hi, level_bounds o = Some (lo, hi) /\
+     forall l, (lo <= l <= hi)%Z -> (o_max o < Z.of_nat (length (lin_ticks_at base eb mn mx false l)))%Z).
+Proof. exact lin_ticks_none_iff. Qed.
+Print Assumptions C17_linear_ticks_none_iff.
+
+(* Nice never shrinks the domain (any options; when no level fits the domain stays), and
+   moves each end by less than one spacing of the level it chose, onto a multiple of it *)
+Theorem C17_linear_nice_expands : forall base mn mx o guess a b,
+  lin_nice base mn mx o guess = NR_dom a b ->
+  let '(smn, smx) := nice_start mn mx in a <= smn /\ smx <= b.
+Proof. exact lin_nice_expands. Qed.
+Print Assumptions C17_linear_nice_expands.
+
+Theorem C17_linear_nice_adds_less_than_one_spacing : forall base eb mn mx o guess a b,
+  lin_ebase base = Some eb ->
+  lin_nice base mn mx o guess = NR_dom a b ->
+  let '(smn, smx) := nice_start mn mx in
+  (a == smn /\ b == smx) \/
+  exists l, find_level o (lin_count base eb smn smx true) guess = FL_ok l /\
+    let sp := lin_spacing base eb l in
+    smn - a < sp /\ b - smx < sp /\
+    (a == smn \/ exists k : Z, a = inject_Z k * sp) /\ (b == smx \/ exists k : Z, b = inject_Z k * sp).
+Proof. exact lin_nice_adds_less_than_one_spacing. Qed.
+Print Assumptions C17_linear_nice_adds_less_than_one_spacing.
+
+(* non-vacuity: [0.3, 2.7] (exact rationals), Max = 4 -> major 1, 2 at level 0, minor every 0.5;
+   Nice -> [0, 3]; a domain around 0 with Max = 2 has no fitting level: Nice leaves it (D10) *)
+Example C17_linear_example :
+  match lin_ticks 0 (3 # 10) (27 # 10) (mkOpts 4 0 0) 5 with
+  | TR_ticks ma mi => map Qred ma = [1; 2] /\ map Qred mi = [1 # 2; 1; 3 # 2; 2; 5 # 2]
+  | _ => False end /\
+  match lin_nice 0 (3 # 10) (27 # 10) (mkOpts 4 0 0) 5 with
+  | NR_dom a b => Qred a = 0 /\ Qred b = 3 | _ => False end /\
+  lin_count 0 10 (-1) 2 true 0 = 4%Z /\ lin_count 0 10 (-1) 2 true 7 = 3%Z.
+Proof. vm_compute. repeat split; reflexivity. Qed.
+End Linear.
